@@ -25,7 +25,7 @@ from pathlib import Path
 
 VERIF = Path(__file__).resolve().parent.parent
 COQ = VERIF / "coq"
-REPO = Path("/repo")
+REPO = Path(os.environ.get("VERIF_REPO", "/repo"))
 WORK = VERIF / "work"
 EVID = VERIF / "evidence"
 
